@@ -336,7 +336,7 @@ def progress_ok(obs: Observed, expected_events: Sequence[tuple], kinds_in_order:
 
 def junit_ok(obs: Observed, expected_suites: Sequence[Tuple[str, Sequence[Tuple[str, int]]]],
              oracle_bug: bool = False, canon=norm_name) -> bool:
-    """JUnit reporter, valid suite.  expected_suites: [(suite name or None, [(case name, kind), ...])] in
+    """JUnit reporter, valid suite.  expected_suites: [(suite name, [(case name, kind), ...], is the root suite)] in
     processing order (a root suite without cases may be left out of a multi-suite report).
     tests = number of cases, failures + errors = number of unsuccessful ones, every unsuccessful case has a
     failure or error child and no successful one has; same cases, same order."""
@@ -367,20 +367,6 @@ def junit_ok(obs: Observed, expected_suites: Sequence[Tuple[str, Sequence[Tuple[
         if got['failures'] + got['errors'] != n_bad:
             return False
     return True
-
-
-def same_cases_listed(progress_out: str, junit_obs: Observed) -> bool:
-    """the JUnit report, the progress lines the JUnit reporter writes to stderr and the progress reporter's
-    stdout list the same cases in the same order"""
-    ev_p, _ = parse_progress(progress_out)
-    ev_j, _ = parse_progress(junit_obs.err)
-    names_p = [e[1] for e in ev_p if e[0] == 'case']
-    names_j = [e[1] for e in ev_j if e[0] == 'case']
-    try:
-        names_x = [c[0] for s in parse_junit(junit_obs.out) for c in s['cases']]
-    except Exception:  # noqa
-        return False
-    return names_p == names_j == names_x and [e for e in ev_p] == [e for e in ev_j]
 
 
 # ----------------------------------------------------------------------------- K1: SuitesExecutor on built hierarchies
